@@ -71,7 +71,10 @@ def createSourceType : CType → Bool → Str
 
 /-- `Transformer._create_complete_source_type(source_type, is_parameter)` -/
 def createCompleteSourceType : CType → Bool → Str
-  | .void _, _ => sVoid
+  | .void q, _ =>
+    -- `value = 'void'`, then the same qualifier prefixes as every other named base type
+    let value := if q.const then kwConst ++ sVoid else sVoid
+    if q.volatile then kwVolatile ++ value else value
   | .basic q n, _ | .typedef q n, _ | .tagged q n, _ =>
     let value := if q.const then kwConst ++ n else n
     if q.volatile then kwVolatile ++ value else value
